@@ -1498,11 +1498,23 @@ class Executor:
 
         # Try to handle one of the pending EPR responses
         handled = False
+        # Responses for the same role, remote node and purpose are handled in the
+        # order they arrived: a response that has to wait (e.g. since its virtual
+        # qubit is still in use) must not be overtaken by a later one.
+        waiting_keys = set()
         for i, response in enumerate(self._pending_epr_responses):
 
             if response.type == ReturnType.ERR:
                 self._handle_epr_err_response(response)  # type: ignore
             else:
+                response_key = (
+                    response.directionality_flag,  # type: ignore
+                    response.remote_node_id,  # type: ignore
+                    response.purpose_id,  # type: ignore
+                )
+                if response_key in waiting_keys:
+                    continue
+                waiting_keys.add(response_key)
                 self._logger.debug(
                     f"Try to handle EPR OK ({response.type}) response from network stack"
                 )
